@@ -4,10 +4,13 @@
 from __future__ import annotations
 
 import ast
+import copy
 import inspect
 import sys
+import types
 from typing import Any, Callable, Optional, Sequence, TypeVar
 
+import numpy as np
 from typing_extensions import ParamSpec
 
 import onnxscript
@@ -36,6 +39,57 @@ def script_check(
         default_opset=default_opset,
     )
     return convert.translate_function_def(f)
+
+
+def _freeze_constant(value: Any) -> Any:
+    """Copies a script-time constant that is a mutable container; everything else is shared."""
+    if isinstance(value, (list, dict, set, bytearray, np.ndarray)):
+        try:
+            return copy.deepcopy(value)
+        except Exception:  # pylint: disable=broad-exception-caught
+            return value
+    return value
+
+
+def _bind_to_definition_site(
+    f: Callable[_P, _R], f_ast: ast.AST, env: dict[str, Any]
+) -> Callable[_P, _R]:
+    """Returns a copy of f bound to a snapshot of the outer names it refers to.
+
+    The translation of a script evaluates the global and nonlocal names it refers to when
+    the decorator runs. Eager-mode execution runs the python function and would look these
+    names up again at every call: after a rebinding or mutation of a global, eager calls
+    would diverge from the generated FunctionProto/ModelProto. The copy sees the values the
+    translation saw (only the names the function refers to are kept alive).
+    """
+    referenced = {node.id for node in ast.walk(f_ast) if isinstance(node, ast.Name)}
+    pending = [f.__code__]
+    while pending:
+        code = pending.pop()
+        referenced.update(code.co_names)
+        pending.extend(c for c in code.co_consts if isinstance(c, types.CodeType))
+    snapshot = {
+        name: _freeze_constant(value)
+        for name, value in env.items()
+        if name in referenced or (name.startswith("__") and name.endswith("__"))
+    }
+    closure = None
+    if f.__closure__ is not None:
+        cells = []
+        for cell in f.__closure__:
+            try:
+                cells.append(types.CellType(_freeze_constant(cell.cell_contents)))
+            except ValueError:  # empty cell: not bound yet
+                cells.append(cell)
+        closure = tuple(cells)
+    bound = types.FunctionType(f.__code__, snapshot, f.__name__, f.__defaults__, closure)
+    bound.__kwdefaults__ = copy.copy(f.__kwdefaults__)
+    bound.__annotations__ = f.__annotations__
+    bound.__dict__.update(f.__dict__)
+    bound.__doc__ = f.__doc__
+    bound.__module__ = f.__module__
+    bound.__qualname__ = f.__qualname__
+    return bound  # type: ignore[return-value]
 
 
 def script(
@@ -93,6 +147,8 @@ def script(
         env.update(closure.nonlocals)
         result = script_check(f_ast, opset, env, src, default_opset=default_opset)
         # TODO: add transformations.
+        # Eager-mode calls use the values of outer names that the translation used.
+        f = _bind_to_definition_site(f, f_ast, env)
         return onnxscript.OnnxFunction(opset, f, result, src, kwargs)
 
     return transform
